@@ -223,12 +223,22 @@ int32 psDiffMsecs(psTime_t then, psTime_t now, void *userPtr)
         /* borrow 1 second worth of nsec */
         now.psTimeInternal.tv_nsec += 1000000000L;
         }
-        return (int32) ((now.psTimeInternal.tv_sec -
-                then.psTimeInternal.tv_sec) *
-                1000) +
-               ((now.psTimeInternal.tv_nsec -
-                 then.psTimeInternal.tv_nsec) /
-                1000000);
+        {
+            /* Saturate instead of wrapping: about 24.8 days fit in int32 */
+            int64_t msecs = ((int64_t) (now.psTimeInternal.tv_sec -
+                    then.psTimeInternal.tv_sec) * 1000) +
+                ((now.psTimeInternal.tv_nsec -
+                  then.psTimeInternal.tv_nsec) / 1000000);
+            if (msecs > 0x7FFFFFFF)
+            {
+                return 0x7FFFFFFF;
+            }
+            if (msecs < -0x7FFFFFFF)
+            {
+                return -0x7FFFFFFF;
+            }
+            return (int32) msecs;
+        }
     }
 
     int64_t psDiffUsecs(psTime_t then, psTime_t now)
